@@ -60,6 +60,7 @@ func ResetRun(t *tape.Tape, active map[int]bool) {
 	RunSeen = map[int]int{}
 	siteExec = map[int]int{}
 	SiteSeeds = nil
+	resetSched()
 }
 
 func less(a, b any) (bool, bool) {
